@@ -556,8 +556,13 @@ pub fn run_random(rec: &mut Rec, seed: u64, run: u64, nops: usize, stable: bool)
                 let dpre = p.w.digest();
                 // ... or a forged cw20 receipt: the caller sends the Receive message itself, naming itself as the sender of
                 // LP tokens (or of pool tokens to swap) that never moved
-                let forged = r.gen_range(0..3);
+                // ... or a genuine cw20 receipt of the wrong token: one of the pool's own cw20 ASSETS sent to the pair with the
+                // withdrawal hook (only the LP token's receipts may withdraw)
+                let cw20_assets: Vec<Addr> = p.assets.iter().filter_map(|a| match a { A::Cw20(t) => Some(t.clone()), _ => None }).collect();
+                let forged = if cw20_assets.is_empty() { r.gen_range(0..3) } else { r.gen_range(0..5) };
                 let rs = match forged {
+                    3 | 4 => { let t = cw20_assets[r.gen_range(0..cw20_assets.len())].clone();
+                               p.w.cw20_send(&u, &t, &p.pair.clone(), amt, &Cw20HookMsg::WithdrawLiquidity {}) }
                     0 => p.w.exec(&u, &p.pair.clone(), &ExecuteMsg::WithdrawLiquidity {}, &funds),
                     1 => p.w.exec(&u, &p.pair.clone(), &forged_receive(&u, amt, &Cw20HookMsg::WithdrawLiquidity {}), &[]),
                     _ => p.w.exec(&u, &p.pair.clone(), &forged_receive(&u, amt, &Cw20HookMsg::Swap { belief_price: None, max_spread: Some(dec_atomics(500_000_000_000_000_000)), to: None }), &[]),
